@@ -8,7 +8,7 @@ def run(tier, seed):
     v = Verdict(PROP, tier, seed)
     v.assumptions = ["TLC bounds: 2 clients x 2 workers, 3-4 items; main (thread-bound) queue not modelled",
                      "real executions sample schedules"]
-    run_models(v, PROP, ["Q1"] if tier == "quick" else ["Q1", "Q1p", "Q6b"])
+    run_models(v, PROP, ["Q1"] if tier == "quick" else ["Q1", "Q1w", "Q1p", "Q6b"])
     # the repaired defect F1 stays refutable: without the tail check the same spec violates Order
     run_mutants(v, PROP, [("Q1p", "F1"), ("Q1", "sync_does_not_wait")])
     dqstate_conformance(v, PROP)
